@@ -277,12 +277,24 @@ fn parse_args() -> Args {
                 i += 1;
             }
             "--list" => a.list = true,
+            "--prop" => {
+                let _ = SELECTED_PROPERTY.set(v[i + 1].clone());
+                i += 1;
+            }
             other => machinery_error(&format!("unknown argument {other}")),
         }
         i += 1;
     }
     a.tier = if a.tier_s == "thorough" { Tier::Thorough } else { Tier::Quick };
     a
+}
+
+static SELECTED_PROPERTY: std::sync::OnceLock<String> = std::sync::OnceLock::new();
+
+/// A harness that serves several properties with one exploration and different oracle sets is
+/// started with `--prop <id>`; it reads the selection here (workers inherit it).
+pub fn selected_property() -> Option<&'static str> {
+    SELECTED_PROPERTY.get().map(|s| s.as_str())
 }
 
 pub fn machinery_error(msg: &str) -> ! {
@@ -709,6 +721,9 @@ fn parent_main<H: Harness>(h: &H, args: &Args) -> i32 {
             let mut cmd = Command::new(&exe);
             cmd.arg("--job").arg(ci.to_string()).arg(w.to_string()).arg(ww.to_string());
             cmd.arg("--tier").arg(&args.tier_s).arg("--out").arg(&out).arg("--budget").arg(budget.to_string());
+            if let Some(p) = selected_property() {
+                cmd.arg("--prop").arg(p);
+            }
             cmd.stdin(Stdio::null());
             match cmd.spawn() {
                 Ok(child) => running.push(Running { child, cfg_idx: ci, w, out }),
@@ -739,7 +754,11 @@ fn parent_main<H: Harness>(h: &H, args: &Args) -> i32 {
                         let step = crash[5] as usize;
                         let n = crash[6] as usize;
                         let idx: Vec<String> = crash[7..7 + n.min(crash.len() - 7)].iter().map(|b| b.to_string()).collect();
-                        let o = Command::new(&exe)
+                        let mut dc = Command::new(&exe);
+                        if let Some(p) = selected_property() {
+                            dc.arg("--prop").arg(p);
+                        }
+                        let o = dc
                             .arg("--tier")
                             .arg(&args.tier_s)
                             .arg("--decode")
@@ -841,7 +860,11 @@ fn parent_main<H: Harness>(h: &H, args: &Args) -> i32 {
         std::fs::write(&path, serde_json::to_vec_pretty(&rf).unwrap()).unwrap();
         let mut results = Vec::new();
         for _ in 0..2 {
-            match Command::new(&exe).arg("--replay").arg(&path).output() {
+            let mut rc = Command::new(&exe);
+            if let Some(p) = selected_property() {
+                rc.arg("--prop").arg(p);
+            }
+            match rc.arg("--replay").arg(&path).output() {
                 Ok(o) => {
                     let s = String::from_utf8_lossy(&o.stdout).to_string();
                     let res = s.lines().find(|l| l.starts_with("REPLAY-RESULT:")).unwrap_or("").to_string();
